@@ -5,3 +5,5 @@
 ;                change (monotonically) at every channel operation
 ; ghost rpos (Array Iface Int)
 ; ghost-async cancelled (Array Iface Bool)
+; reader position when the decoder was started (FullyScannedBytes is relative to it)
+(declare-const rstart Int)
